@@ -369,6 +369,23 @@ def build(S, tier):
     mods = I0.loader.all_module_names()
     names = {qn: v.name for qn, (cat, v) in found.items()}
     for first in mods:
+        def run_only(I, first=first):
+            # nothing but `first` (and what it imports itself): every serializable class whose module got loaded must
+            # already be registered under its name, or dictionaries naming it cannot be rebuilt in that session
+            I.import_module(first)
+            reg = I.loader.modules["quansino.registry"].globals["__class_registry"] if "quansino.registry" in I.loader.modules else {}
+            missing = []
+            for qn, nm in names.items():
+                modname = qn.rsplit(".", 1)[0]
+                if modname in I.loader.modules and getattr(I.loader.modules[modname], "globals", {}).get(nm) is not None:
+                    if reg.get(nm) is not I.loader.modules[modname].globals.get(nm):
+                        missing.append(nm)
+            return missing
+        for i, p in enumerate(S.explore(run_only, f"import-only:{first}")):
+            if p.status == "return":
+                S.prove(f"static:registry:{first}#classes_loaded_by_this_import_alone_are_registered", p.value == [], kind="static",
+                        why=f"after `import {first}` alone these loaded classes cannot be found by name: {p.value}")
+
         def run(I, first=first):
             I.import_module(first)
             for m in mods:
